@@ -14,7 +14,6 @@ import (
 // content and source address.
 // ---------------------------------------------------------------------------------------
 
-var vLocalUDP net.Addr = &net.UDPAddr{IP: net.IP{10, 0, 0, 1}, Port: 9000}
 
 type vUDPObs struct {
 	traffics    int
